@@ -552,7 +552,28 @@ func c08(tier string, args []string) int {
 	roundA := rec2.Round
 	roundB, err := rec2.SecondRound(2, world.BatchSpec{ID: "B-batch", Proposer: 1, Tasks: world.SimpleTasks("b", []byte("round B"))})
 	if err != nil {
-		r.Infra("second round: %v", err)
+		// "messages of other rounds interleaved on the same board change nothing": the same second
+		// round on a board of its own (same participants, machines and proposal) is the control
+		w0, werr := world.NewWorld(2)
+		if werr != nil {
+			r.Infra("world: %v", werr)
+		}
+		_, aerr := w0.StartDKGOver(2, 0, []int{0, 1}, func(q *requests.SignatureProposalParticipantsListRequest) { q.CreatedAt = world.T0.Add(1000) })
+		if aerr == nil {
+			aerr = w0.RunToQuiescence()
+		}
+		alone := aerr == nil
+		for _, nd := range w0.Nodes {
+			if nd.RoundState(w0.Round) != "stage_signing_idle" {
+				alone = false
+			}
+		}
+		w0.Close()
+		if !alone {
+			r.Infra("second round: %v (and it does not complete on a board of its own either: %v)", err, aerr)
+		}
+		r.Violation("C08/other-round-changes-state/second-round-does-not-complete-after-the-first", fmt.Sprintf("a second round of the same participants completes on a board of its own, but not on the board that holds the first round's messages: %v", err), map[string]interface{}{"scenario": "two-round recording (n=2,t=2)", "first_round": roundA})
+		return finish(r)
 	}
 	for v := 0; v < 2; v++ {
 		var A, B []storage.Message
